@@ -114,6 +114,29 @@ def w_constructors(case, led):
                           and (not (~mk).any() or np.abs(d[~mk]).max() == 0), "post:Mps.ground_state:product_state_in_the_zero_sector", "Mps.ground_state",
                           f"differs from the product of the local reference vectors by {np.abs(d - want).max() if d.shape == want.shape else 'shape'}; qntot={g.qntot}, qnv={S.qnv_violations(g)[:1]}",
                           key, {"max_entangled": max_ent, "normalize": normalize}, rep)
+    # vector-valued conditions: a local state given by coefficients.  Either the occupied local states share ONE label (every component) and the product state lies in
+    # that sector, or the call refuses ("Quantum numbers are mixed"); a state labelled with a sector it does not lie in must never come back
+    if name == "spin2qn" and n == 2:
+        from renormalizer.model import Model, basis as ba
+        mix_model = Model([ba.BasisMultiElectron(["u", "d"], [[1, 0], [0, 1]]), ba.BasisHalfSpin("s", sigmaqn=[[0, 0], [1, 0]]),
+                           ba.BasisMultiElectron(["p", "q", "r"], [[1, 0], [1, 0], [0, 1]])], [])
+        for cond, label in (({"u": [0.6, 0.8]}, "states (1,0) and (0,1): equal total, different components"), ({"p": [0.6, 0.8, 0.0]}, "two states of label (1,0)"),
+                            ({"p": [0.6, 0.0, 0.8]}, "states (1,0) and (0,1) of a three-state site"), ({"s": [0.6, 0.8]}, "states (0,0) and (1,0)")):
+            key = key0 + ("hartree-vector", label)
+            rep = {"basis": "MultiElectron(u,d; (1,0),(0,1)) x HalfSpin(s; (0,0),(1,0)) x MultiElectron(p,q,r; (1,0),(1,0),(0,1))", "condition": {k: v for k, v in cond.items()}}
+            try:
+                hp = Mps.hartree_product_state(mix_model, dict(cond))
+            except ValueError:
+                led.ok("post:Mps.hartree_product_state:mixed_labels_refused", "Mps.hartree_product_state", key, nontrivial=True)
+                continue
+            except Exception as e:
+                led.check(False, "post:Mps.hartree_product_state:total", "Mps.hartree_product_state", f"raised {e!r}", key, {}, rep)
+                continue
+            d = S.dense(hp)
+            mk = S.sector_mask(mix_model, np.asarray(hp.qntot).reshape(-1))
+            leak = float(np.abs(d[~mk]).max()) if (~mk).any() else 0.0
+            led.check(leak == 0.0 and not S.qnv_violations(hp), "post:Mps.hartree_product_state:returned_state_lies_in_the_sector_it_is_labelled_with", "Mps.hartree_product_state",
+                      f"{label}: labelled sector {np.asarray(hp.qntot).tolist()}, amplitude {leak:.2f} outside it; qnv {S.qnv_violations(hp)[:1]}", key, {"case": label}, rep)
     # ground-state search conserves the sector
     if n >= 2:
         for q in sectors[1:3]:
